@@ -22,6 +22,7 @@ def main() -> int:
         mod = importlib.import_module(f"harness.{pid.lower()}")
         rep = common.Report(pid, a.tier)
         if a.replay:
+            rep.is_replay = True
             mod.replay(rep, a.replay)
         else:
             mod.run(rep, a.tier)
